@@ -317,7 +317,9 @@ FRAGS = [b"http://a.b/c", b"www.a.b", b"a@b.c", b"mailto:a@b.cd", b"xmpp:a@b.c/d
          b"<!D x>", b"<![CDATA[x]]>", b"&amp;", b"&#65;", b"&#x41;", b"[^f]", b"[[u|t]]", b"[[u]]", b"$$x$$", b"$`x`$", b"---", b"...",
          b"- [x] ", b"- [ ] ", b"\xc3\xa9", b"\xe2\x80\x9c", b"\xc2\xa0", b"\xe6\xbc\xa2", b"  \n", b"\\\n", b"\t", b"\r\n", b"](/u 't')", b"](<u v>)",
          b"[r]", b"[r][]", b"[t][r]", b"![i][r]", b"\n\n[r]: /u 'T'\n\n", b"\n\n[^f]: note\n\n", b"# ", b"| a | b |\n|---|---|\n| ", b" | ", b"> ", b"1. ",
-         b"***", b"___", b"~~", b"||", b"^^", b"``", b"x", b"B", b"0"]
+         b"***", b"___", b"~~", b"||", b"^^", b"``", b"x", b"B", b"0",
+         b"a@b.1c", b"a+b_c@d-e.f2.g", b"x@y.z/", b"a@b.c.", b"a@b.c-", b"a@b.c_", b"@b.2", b".3x", b"www.a.b/c(d)", b"www.a_b.c", b"www.a.b&amp;",
+         b"http://a.b)", b"https://x.y<", b"ftp://a", b"://", b"[w](www.a.b)", b"mailto:", b"xmpp:", b"1", b"A"]
 
 
 def exhaustive(maxlen):
